@@ -96,6 +96,7 @@ class State:
         self.exc_type = None
         self.next_obj = 1
         self.notes = []
+        self.trace = []
 
     def clone(self):
         s = State.__new__(State)
@@ -111,6 +112,7 @@ class State:
         s.exc_type = self.exc_type
         s.next_obj = self.next_obj
         s.notes = list(self.notes)
+        s.trace = list(self.trace)
         return s
 
     def obj_w(self, oid):
@@ -160,6 +162,7 @@ class Executor:
         self.base_facts = list(assumptions or [])
         self.deadline = None
         self.merge = True
+        self.guide = None        # list of (z3 var, z3 value): follow only the path this concrete input takes
         self.obj_bases = {}
         self.merged = 0
         self._simple_cache = {}
@@ -675,6 +678,13 @@ class Executor:
             return [(True, p.off.sc)]
         if obj.size > 4096:
             raise IRUnsupported("symbolic offset into a large object")
+        if self.guide is not None:
+            for k in range(0, obj.size - size + 1):
+                c = zb(self.dom.icmp("eq", p.off, IV(64, c=k)))
+                if self.guide_truth(c):
+                    st.pc.append(c)
+                    return [(True, k)]
+            raise PathEnd("UB", "oob_" + what)
         if obj.size <= 96:
             # keep only the offsets the path condition allows (usually exactly one)
             out = []
@@ -693,12 +703,38 @@ class Executor:
         return [(e == z3.BitVecVal(k, 64), k) for k in range(0, obj.size - size + 1)]
 
     # ------------------------------------------------------------------ feasibility
+    def guide_truth(self, cond):
+        """truth of a condition under the guiding concrete input (fresh/undef variables read as 0)"""
+        if is_conc_bool(cond):
+            return cond
+        r = z3.simplify(z3.substitute(cond, *self.guide)) if self.guide else z3.simplify(cond)
+        if z3.is_true(r):
+            return True
+        if z3.is_false(r):
+            return False
+        # leftover fresh variables: bind them to zero
+        extra = []
+        for v in self.dom.fresh_vars:
+            if z3.is_bv(v):
+                extra.append((v, z3.BitVecVal(0, v.size())))
+            elif z3.is_int(v):
+                extra.append((v, z3.IntVal(0)))
+        if extra:
+            r = z3.simplify(z3.substitute(r, *extra))
+            if z3.is_true(r):
+                return True
+            if z3.is_false(r):
+                return False
+        raise IRUnsupported("guided execution: condition not decided by the guiding input")
+
     def feasible(self, st, cond):
         """True / False / None(unknown)"""
         if cond is True:
             return True
         if cond is False:
             return False
+        if self.guide is not None:
+            return self.guide_truth(cond)
         self.prune_calls += 1
         if self.deadline is not None:
             import time as _t
@@ -743,7 +779,9 @@ class Executor:
             try:
                 self.run_path(st, work)
             except PathEnd as pe:
-                self.paths.append(Path(st.pc, pe.kind, pe.payload, st.mem, st.notes, st.msgs))
+                pth = Path(st.pc, pe.kind, pe.payload, st.mem, st.notes, st.msgs)
+                pth.trace = tuple(st.trace)
+                self.paths.append(pth)
             if len(self.paths) + len(work) > self.max_paths:
                 raise IRUnsupported("path explosion (> %d paths)" % self.max_paths)
         return self.paths
@@ -764,6 +802,12 @@ class Executor:
             return
         if z3.is_false(cs):
             self.goto(st, tgt_false)
+            return
+        if self.guide is not None:
+            t = self.guide_truth(cs)
+            st.pc.append(cs if t else z3.Not(cs))
+            st.trace.append(tgt_true if t else tgt_false)
+            self.goto(st, tgt_true if t else tgt_false)
             return
         ft = self.feasible(st, cs)
         if ft is False:
@@ -1082,6 +1126,10 @@ class Executor:
                     L[ins.dest] = a
                 elif z3.is_false(cs):
                     L[ins.dest] = b
+                elif self.guide is not None:
+                    t = self.guide_truth(cs)
+                    st.pc.append(cs if t else z3.Not(cs))
+                    L[ins.dest] = a if t else b
                 else:
                     ft = self.feasible(st, cs)
                     ff = self.feasible(st, z3.Not(cs)) if ft is not False else True
@@ -1114,6 +1162,18 @@ class Executor:
                     if (cv & mask(v.bits)) == v.c:
                         self.goto(st, lab)
                         return
+                self.goto(st, ins.x["default"])
+                return
+            if self.guide is not None:
+                for cv, lab in cases:
+                    c = zb(d.icmp("eq", v, IV(v.bits, c=cv))) if isinstance(v, IV) else zb(v if cv & 1 else b_not(v))
+                    if self.guide_truth(c):
+                        st.pc.append(c)
+                        st.trace.append(lab)
+                        self.goto(st, lab)
+                        return
+                    st.pc.append(z3.Not(c))
+                st.trace.append(ins.x["default"])
                 self.goto(st, ins.x["default"])
                 return
             # fork over cases
@@ -1301,6 +1361,12 @@ class Executor:
             return True
         if z3.is_false(cs):
             return False
+        if self.guide is not None:
+            if self.guide_truth(cs):
+                st.pc.append(cs)
+                return True
+            st.pc.append(z3.Not(cs))
+            raise PathEnd("UB", "oob_access")
         ff = self.feasible(st, z3.Not(cs))
         if ff is not False:
             self.paths.append(Path(st.pc + [z3.Not(cs)], "UB", "oob_access", None, st.notes, st.msgs))
